@@ -67,13 +67,13 @@ func Load(repo string, harnessDir string) (*Program, error) {
 
 // Item is one unit of work: a harness function under a concrete shape.
 type Item struct {
-	Harness   string
-	Shape     map[string]int
-	MaxPaths  int
-	Known     []string // names of known-finding predicates to assume away
-	WitnessN  int      // sample every n-th completed path as a witness (0 = none)
-	MaxSteps  int64
-	Start     *StartPrefix // nil: explore from the root; else: only the subtree below this prefix
+	Harness  string
+	Shape    map[string]int
+	MaxPaths int
+	Known    []string // names of known-finding predicates to assume away
+	WitnessN int      // sample every n-th completed path as a witness (0 = none)
+	MaxSteps int64
+	Start    *StartPrefix // nil: explore from the root; else: only the subtree below this prefix
 }
 
 // StartPrefix is an opaque decision prefix handed from one worker to another
@@ -107,8 +107,8 @@ type ItemResult struct {
 }
 
 type Worker struct {
-	P  *Program
-	in *Interp
+	P        *Program
+	in       *Interp
 	ObligDir string // if set, obligation queries are written here as .smt2
 	obligN   int
 }
